@@ -4,112 +4,119 @@ C05 — property theorems for the word-level models of src/math/pp/pp_mul.c (Mod
 coded by the little-endian word list `a` (`val w (r ++ [carry])` = result words with the carry word
 on top, i.e. `val r ^^^ carry <<< (w n)`: the bits are disjoint).
 
-STATUS.  `ppSqr_spec` is unconditional.  Every theorem named `_partial` is proved for all lengths and every word size `w`
-UNDER THE HYPOTHESIS `Mul1OK w` — "the one-word product `_MUL1` (window method s = 4:
-`_MUL_PRE_S4`, `_MUL_MUL_S4`, `_MUL_REPAIR_S4`; model `ppMul1W`) returns two words lo, hi with
-lo + 2^w hi = clmul a b".  That hypothesis is NOT yet proved (it is covered by the differential run
-of the driver only); everything built on top of `_MUL1` — the carry chains of ppMulW / ppAddMulW and
-the Karatsuba index schemes — is proved from it.
+STATUS.  Everything below is unconditional.  `_spec` theorems about multiplication are stated for the
+three word sizes of the library, w ∈ {16, 32, 64}; `ppSqr_spec` for every w with 16 | w; the
+Karatsuba steps `ppKara2_step`, `ppKara3_step` for every w.
 
-FULL STATEMENTS still open (no hypothesis):
-  Mul1OK w for w = 16, 32, 64 (then every `_partial` below becomes unconditional).
-  Proved towards it (LemmasPpMul §10): `ppTab_at` — entry i of the `_MUL_PRE_S4` table is a·i mod x^w;
-  `octet_spec` — `t[y >> 4] << 4 ^ t[y & 15]` = a·y mod x^w for an octet y.  Still missing: the exact
-  two-word shift of the (hi, lo) register in `_MUL_MUL_S4` (value = XOR_j (a·y_j mod x^w) << 8j), and
-  that the seven `_MUL_REPAIR_S4` lines add XOR_j ((a·y_j) >> w) << 8j (per octet:
-  (a·y) >> w = XOR_{k=1..7} a_{w-k} · (y >> k)).
+How `_MUL1` (window method s = 4: `_MUL_PRE_S4`, `_MUL_MUL_S4`, `_MUL_REPAIR_S4`; model `ppMul1W`)
+is proved (LemmasPpMul §10–§12), for w = 8·nb:
+  `ppTab_at` — entry i of the table is a·i mod x^w;  `octet_spec` — `t[y >> 4] << 4 ^ t[y & 15]` is
+  a·y mod x^w;  `regStep`, `ppMulS4Loop_spec` — the (hi, lo) register shifts exactly as a two-word value
+  and ends with XOR_j (a·y_j mod x^w) << 8j;  `clmul_Gf_Kf` — a·b is that value xor
+  (XOR_j ((a·y_j) >> w) << 8j) << w;  `RepairOK` — the seven repair lines xor exactly that lost part
+  into hi: both sides are xor-bilinear in (a, b) (`ppRepair_add_a/b`, `Kf_add_a/b`, `additive_ext`),
+  so it suffices to compare them on the w² pairs of monomials (2^i, 2^p), which is done by kernel
+  evaluation (`decide +kernel`, no axiom) for w = 16, 32, 64.
 -/
 import Bee2V.C05.LemmasPpMul
 namespace Bee2V.C05
 open Bee2V.C05.Spec Bee2V.C05.PpMul
 
-/-- ppMulW: `b ++ [carry] = a · w` (carry-less), given `_MUL1`. -/
-theorem ppMulW_partial (w : Nat) (h1 : Mul1OK w) (a : List Nat) (x : Nat)
+/-- `_MUL1` (ppMul1): for words a, b the two result words lo, hi are words and
+    `lo + 2^w hi = a · b` (carry-less). -/
+theorem ppMul1W_spec (w : Nat) (hw : w = 16 ∨ w = 32 ∨ w = 64) (a b : Nat) (ha : a < 2 ^ w)
+    (hb : b < 2 ^ w) :
+    (ppMul1W w a b).1 < 2 ^ w ∧ (ppMul1W w a b).2 < 2 ^ w
+    ∧ (ppMul1W w a b).1 + 2 ^ w * (ppMul1W w a b).2 = clmul a b :=
+  Mul1OK_of_width hw a b ha hb
+
+/-- ppMulW: `b ++ [carry] = a · w` (carry-less). -/
+theorem ppMulW_spec (w : Nat) (hw : w = 16 ∨ w = 32 ∨ w = 64) (a : List Nat) (x : Nat)
     (ha : Wf w a) (hx : x < 2 ^ w) :
     val w ((ppMulW w a x).1 ++ [(ppMulW w a x).2]) = clmul (val w a) x
     ∧ (ppMulW w a x).2 < 2 ^ w ∧ Wf w (ppMulW w a x).1
     ∧ (ppMulW w a x).1.length = a.length :=
-  ppMulW_spec w h1 a x ha hx
+  PpMul.ppMulW_spec w (Mul1OK_of_width hw) a x ha hx
 
-/-- ppAddMulW: `b' ++ [carry] = b + a · w`, given `_MUL1`. -/
-theorem ppAddMulW_partial (w : Nat) (h1 : Mul1OK w) (b a : List Nat) (x : Nat) (hb : Wf w b)
+/-- ppAddMulW: `b' ++ [carry] = b + a · w`. -/
+theorem ppAddMulW_spec (w : Nat) (hw : w = 16 ∨ w = 32 ∨ w = 64) (b a : List Nat) (x : Nat) (hb : Wf w b)
     (ha : Wf w a) (hl : b.length = a.length) (hx : x < 2 ^ w) :
     val w ((ppAddMulW w b a x).1 ++ [(ppAddMulW w b a x).2]) = val w b ^^^ clmul (val w a) x
     ∧ (ppAddMulW w b a x).2 < 2 ^ w ∧ Wf w (ppAddMulW w b a x).1
     ∧ (ppAddMulW w b a x).1.length = b.length :=
-  ppAddMulW_spec w h1 b a x hb ha hl hx
+  PpMul.ppAddMulW_spec w (Mul1OK_of_width hw) b a x hb ha hl hx
 
-/-- ppMul1, ppMul2 (Kara2_1), ppMul4, ppMul8 (Kara2): `c = a · b`, 2n words, given `_MUL1`. -/
-theorem ppMul1_partial (w : Nat) (h1 : Mul1OK w) (a b : List Nat) (ha : Wf w a) (hb : Wf w b)
+/-- ppMul1, ppMul2 (Kara2_1), ppMul4, ppMul8 (Kara2): `c = a · b`, 2n words. -/
+theorem ppMul1_spec (w : Nat) (hw : w = 16 ∨ w = 32 ∨ w = 64) (a b : List Nat) (ha : Wf w a) (hb : Wf w b)
     (hla : a.length = 1) (hlb : b.length = 1) :
     val w (ppMul1 w a b) = clmul (val w a) (val w b) ∧ Wf w (ppMul1 w a b)
-    ∧ (ppMul1 w a b).length = 1 + 1 := ppMul1_ok w h1 a b ha hb hla hlb
+    ∧ (ppMul1 w a b).length = 1 + 1 := ppMul1_ok w (Mul1OK_of_width hw) a b ha hb hla hlb
 
-theorem ppMul2_partial (w : Nat) (h1 : Mul1OK w) (a b : List Nat) (ha : Wf w a) (hb : Wf w b)
+theorem ppMul2_spec (w : Nat) (hw : w = 16 ∨ w = 32 ∨ w = 64) (a b : List Nat) (ha : Wf w a) (hb : Wf w b)
     (hla : a.length = 2) (hlb : b.length = 2) :
     val w (ppMul2 w a b) = clmul (val w a) (val w b) ∧ Wf w (ppMul2 w a b)
-    ∧ (ppMul2 w a b).length = 2 + 2 := ppMul2_ok w h1 a b ha hb hla hlb
+    ∧ (ppMul2 w a b).length = 2 + 2 := ppMul2_ok w (Mul1OK_of_width hw) a b ha hb hla hlb
 
-theorem ppMul4_partial (w : Nat) (h1 : Mul1OK w) (a b : List Nat) (ha : Wf w a) (hb : Wf w b)
+theorem ppMul4_spec (w : Nat) (hw : w = 16 ∨ w = 32 ∨ w = 64) (a b : List Nat) (ha : Wf w a) (hb : Wf w b)
     (hla : a.length = 4) (hlb : b.length = 4) :
     val w (ppMul4 w a b) = clmul (val w a) (val w b) ∧ Wf w (ppMul4 w a b)
-    ∧ (ppMul4 w a b).length = 4 + 4 := ppMul4_ok w h1 a b ha hb hla hlb
+    ∧ (ppMul4 w a b).length = 4 + 4 := ppMul4_ok w (Mul1OK_of_width hw) a b ha hb hla hlb
 
-theorem ppMul8_partial (w : Nat) (h1 : Mul1OK w) (a b : List Nat) (ha : Wf w a) (hb : Wf w b)
+theorem ppMul8_spec (w : Nat) (hw : w = 16 ∨ w = 32 ∨ w = 64) (a b : List Nat) (ha : Wf w a) (hb : Wf w b)
     (hla : a.length = 8) (hlb : b.length = 8) :
     val w (ppMul8 w a b) = clmul (val w a) (val w b) ∧ Wf w (ppMul8 w a b)
-    ∧ (ppMul8 w a b).length = 8 + 8 := ppMul8_ok w h1 a b ha hb hla hlb
+    ∧ (ppMul8 w a b).length = 8 + 8 := ppMul8_ok w (Mul1OK_of_width hw) a b ha hb hla hlb
 
 /-- the (truncated) Karatsuba step used by ppMul4 … ppMul8 and both branches of ppMulEq:
     correct m- and k-word multipliers (k ≤ m ≤ 2k) give a correct (m+k)-word multiplier. -/
-theorem ppKara2_partial (w m k : Nat) (mulLo mulHi : List Nat → List Nat → List Nat)
+theorem ppKara2_step (w m k : Nat) (mulLo mulHi : List Nat → List Nat → List Nat)
     (hLo : MulOK w m mulLo) (hHi : MulOK w k mulHi) (hkm : k ≤ m) (hmk : m ≤ k + k) :
     MulOK w (m + k) (ppKara2 mulLo mulHi m) := ppKara2_ok w m k mulLo mulHi hLo hHi hkm hmk
 
-/-- ppMul3 (Kara3_1), ppMul5, ppMul7 (truncated Kara2), ppMul6 (Kara2), ppMul9 (Kara3), given `_MUL1`. -/
-theorem ppMul3_partial (w : Nat) (h1 : Mul1OK w) (a b : List Nat) (ha : Wf w a) (hb : Wf w b)
+/-- ppMul3 (Kara3_1), ppMul5, ppMul7 (truncated Kara2), ppMul6 (Kara2), ppMul9 (Kara3). -/
+theorem ppMul3_spec (w : Nat) (hw : w = 16 ∨ w = 32 ∨ w = 64) (a b : List Nat) (ha : Wf w a) (hb : Wf w b)
     (hla : a.length = 3) (hlb : b.length = 3) :
     val w (ppMul3 w a b) = clmul (val w a) (val w b) ∧ Wf w (ppMul3 w a b)
-    ∧ (ppMul3 w a b).length = 3 + 3 := ppMul3_ok w h1 a b ha hb hla hlb
+    ∧ (ppMul3 w a b).length = 3 + 3 := ppMul3_ok w (Mul1OK_of_width hw) a b ha hb hla hlb
 
-theorem ppMul5_partial (w : Nat) (h1 : Mul1OK w) (a b : List Nat) (ha : Wf w a) (hb : Wf w b)
+theorem ppMul5_spec (w : Nat) (hw : w = 16 ∨ w = 32 ∨ w = 64) (a b : List Nat) (ha : Wf w a) (hb : Wf w b)
     (hla : a.length = 5) (hlb : b.length = 5) :
     val w (ppMul5 w a b) = clmul (val w a) (val w b) ∧ Wf w (ppMul5 w a b)
-    ∧ (ppMul5 w a b).length = 5 + 5 := ppMul5_ok w h1 a b ha hb hla hlb
+    ∧ (ppMul5 w a b).length = 5 + 5 := ppMul5_ok w (Mul1OK_of_width hw) a b ha hb hla hlb
 
-theorem ppMul6_partial (w : Nat) (h1 : Mul1OK w) (a b : List Nat) (ha : Wf w a) (hb : Wf w b)
+theorem ppMul6_spec (w : Nat) (hw : w = 16 ∨ w = 32 ∨ w = 64) (a b : List Nat) (ha : Wf w a) (hb : Wf w b)
     (hla : a.length = 6) (hlb : b.length = 6) :
     val w (ppMul6 w a b) = clmul (val w a) (val w b) ∧ Wf w (ppMul6 w a b)
-    ∧ (ppMul6 w a b).length = 6 + 6 := ppMul6_ok w h1 a b ha hb hla hlb
+    ∧ (ppMul6 w a b).length = 6 + 6 := ppMul6_ok w (Mul1OK_of_width hw) a b ha hb hla hlb
 
-theorem ppMul7_partial (w : Nat) (h1 : Mul1OK w) (a b : List Nat) (ha : Wf w a) (hb : Wf w b)
+theorem ppMul7_spec (w : Nat) (hw : w = 16 ∨ w = 32 ∨ w = 64) (a b : List Nat) (ha : Wf w a) (hb : Wf w b)
     (hla : a.length = 7) (hlb : b.length = 7) :
     val w (ppMul7 w a b) = clmul (val w a) (val w b) ∧ Wf w (ppMul7 w a b)
-    ∧ (ppMul7 w a b).length = 7 + 7 := ppMul7_ok w h1 a b ha hb hla hlb
+    ∧ (ppMul7 w a b).length = 7 + 7 := ppMul7_ok w (Mul1OK_of_width hw) a b ha hb hla hlb
 
-theorem ppMul9_partial (w : Nat) (h1 : Mul1OK w) (a b : List Nat) (ha : Wf w a) (hb : Wf w b)
+theorem ppMul9_spec (w : Nat) (hw : w = 16 ∨ w = 32 ∨ w = 64) (a b : List Nat) (ha : Wf w a) (hb : Wf w b)
     (hla : a.length = 9) (hlb : b.length = 9) :
     val w (ppMul9 w a b) = clmul (val w a) (val w b) ∧ Wf w (ppMul9 w a b)
-    ∧ (ppMul9 w a b).length = 9 + 9 := ppMul9_ok w h1 a b ha hb hla hlb
+    ∧ (ppMul9 w a b).length = 9 + 9 := ppMul9_ok w (Mul1OK_of_width hw) a b ha hb hla hlb
 
 /-- the Kara3 step (ppMul9 scheme): a correct m-word multiplier gives a correct 3m-word one. -/
-theorem ppKara3_partial (w m : Nat) (mul : List Nat → List Nat → List Nat) (h : MulOK w m mul) :
+theorem ppKara3_step (w m : Nat) (mul : List Nat → List Nat → List Nat) (h : MulOK w m mul) :
     MulOK w (m + m + m) (ppKara3 mul m) := ppKara3_ok w m mul h
 
 /-- ppMulEq for every n ≥ 1 (table for n ≤ 9, (truncated) Karatsuba recursion above; the fuel of
-    the model is never exhausted), given `_MUL1`. -/
-theorem ppMulEq_partial (w : Nat) (h1 : Mul1OK w) (a b : List Nat) (ha : Wf w a) (hb : Wf w b)
+    the model is never exhausted). -/
+theorem ppMulEq_spec (w : Nat) (hw : w = 16 ∨ w = 32 ∨ w = 64) (a b : List Nat) (ha : Wf w a) (hb : Wf w b)
     (hn : 1 ≤ a.length) (hl : b.length = a.length) :
     val w (ppMulEq w a b) = clmul (val w a) (val w b) ∧ Wf w (ppMulEq w a b)
     ∧ (ppMulEq w a b).length = a.length + a.length :=
-  ppMulEq_ok w h1 a.length hn a b ha hb rfl hl
+  ppMulEq_ok w (Mul1OK_of_width hw) a.length hn a b ha hb rfl hl
 
 /-- ppMul, all lengths n, m ≥ 0 (empty factor, n = m, n < m by symmetry, n > m by the chunk loop):
-    `c = a · b`, n + m words, given `_MUL1`. -/
-theorem ppMul_partial (w : Nat) (h1 : Mul1OK w) (a b : List Nat) (ha : Wf w a) (hb : Wf w b) :
+    `c = a · b`, n + m words. -/
+theorem ppMul_spec (w : Nat) (hw : w = 16 ∨ w = 32 ∨ w = 64) (a b : List Nat) (ha : Wf w a) (hb : Wf w b) :
     val w (ppMul w a b) = clmul (val w a) (val w b) ∧ Wf w (ppMul w a b)
     ∧ (ppMul w a b).length = a.length + b.length :=
-  ppMul_spec w h1 a b ha hb
+  PpMul.ppMul_spec w (Mul1OK_of_width hw) a b ha hb
 
 /-- ppSqr (table `_squares[256]`, `_SQR_LO/_SQR_HI`): `b = a · a`, 2n words, for every word size
     that is a multiple of 16 (B_PER_W ∈ {16, 32, 64}).  Unconditional: the 256 table entries are
